@@ -61,6 +61,30 @@ theorem argmin_unlimited_perm (rows rows' : List VA) (hp : rows.Perm rows') :
     · exact (sortRows_perm _).trans (hp.trans (sortRows_perm rows').symm)
   rw [this]
 
+/-- **ArgMaxK.** For every input list without value ties and every `k ≥ 1`: the `arg`s of the `k` largest rows,
+largest first, whatever the arrival order. -/
+theorem argmax_k_spec (rows : List VA) (k : Nat) (hk : 1 ≤ k) (h : NoTies rows) :
+    argMax (some (k : Int)) rows = some ((lastK k (sortRows leVA rows)).reverse.map (·.2)) := by
+  unfold argMax
+  have := foldStep_argMax k hk rows [] (by simpa [NoTies] using h)
+  simp only [sortRows, List.append_nil] at this
+  have h0 : lastK k ([] : List VA) = [] := by simp [lastK]
+  rw [h0] at this
+  rw [this, sortRows_reverse]
+  rfl
+
+theorem argmax_perm (rows rows' : List VA) (k : Nat) (hk : 1 ≤ k) (h : NoTies rows)
+    (hp : rows.Perm rows') : argMax (some (k : Int)) rows = argMax (some (k : Int)) rows' := by
+  have h' : NoTies rows' := (hp.map _).nodup_iff.mp h
+  rw [argmax_k_spec rows k hk h, argmax_k_spec rows' k hk h']
+  have : sortRows leVA rows = sortRows leVA rows' := by
+    apply List.Perm.eq_of_pairwise (le := fun a b => leVA a b = true)
+    · intro a b _ _ h1 h2; exact leVA_antisymm a b h1 h2
+    · exact pairwise_sortRows leVA_trans leVA_total _
+    · exact pairwise_sortRows leVA_trans leVA_total _
+    · exact (sortRows_perm _).trans (hp.trans (sortRows_perm rows').symm)
+  rw [this]
+
 /-- A non-positive limit raises, whatever the row. -/
 theorem argmin_bad_limit (l : Int) (h : l ≤ 0) (x : VA) (rows : List VA) :
     argMin (some l) (x :: rows) = none ∧ argMax (some l) (x :: rows) = none := by
